@@ -3,6 +3,7 @@
 package c15
 
 import (
+	"math"
 	"fmt"
 	"strings"
 	"testing"
@@ -46,9 +47,9 @@ func refSubstr(s string, off, length int) string {
 			return ""
 		}
 	} else {
-		en = st + length
-		if en > n {
-			en = n
+		en = n // length >= n-st, incl. lengths for which st+length is not representable
+		if length < n-st {
+			en = st + length
 		}
 	}
 	return s[st:en]
@@ -244,7 +245,7 @@ func allStrings(alpha []string, maxLen int) []string {
 func TestProp(t *testing.T) {
 	r := core.Start(t, "C15")
 	defer r.Finish()
-	r.Rule("cases = one call (group) of a string helper against a byte-level reference: Substr (PHP-style rule, out of range = empty), SplitAtIndex (exactly two parts that concatenate to the input), PadLeft/PadRight/Pad (length, position, padding = prefix of the repeated token), Wrap + Unwrap round trip, Unwrap on arbitrary strings (unchanged unless wrapped), WrapAllRune, ToLower/ToUpper/Capitalize vs unicode per rune, CamelCase/SnakeCase/KebabCase clauses on words of ASCII letters/digits joined by runs of ' -_&'; non-trivial = input of >= 2 bytes (resp. padding needed / really wrapped / >= 2 words); distinct by hash of the case")
+	r.Rule("cases = one call (group) of a string helper against a byte-level reference: Substr (PHP-style rule, out of range = empty; offsets and lengths up to the int limits), SplitAtIndex (exactly two parts that concatenate to the input), PadLeft/PadRight/Pad (length, position, padding = prefix of the repeated token, fields up to 70 KB), Wrap + Unwrap round trip, Unwrap on arbitrary strings (unchanged unless wrapped), WrapAllRune, ToLower/ToUpper/Capitalize vs unicode per rune, CamelCase/SnakeCase/KebabCase clauses on words of ASCII letters/digits joined by runs of ' -_&'; non-trivial = input of >= 2 bytes (resp. padding needed / really wrapped / >= 2 words); distinct by hash of the case")
 
 	alpha := []string{"a", "B", "é", "'", "*", " "}
 	toks := []string{"'", "*", "''", "'*", "é", "a", "aB"}
@@ -260,6 +261,17 @@ func TestProp(t *testing.T) {
 				}
 				emit(Case{Fn: "SplitAtIndex", S: h, A: a})
 			}
+			if n <= 3*2 { // offsets, lengths and indices at the edge of the int range ("the rest of the string")
+				ext := []int{math.MaxInt, math.MaxInt - 1, math.MinInt, math.MinInt + 1, 1 << 62, -(1 << 62), 1 << 31}
+				for _, x := range ext {
+					for a := -(n + 1); a <= n+1; a++ {
+						emit(Case{Fn: "Substr", S: h, A: a, B: x})
+						emit(Case{Fn: "Substr", S: h, A: x, B: a})
+					}
+					emit(Case{Fn: "Substr", S: h, A: x, B: x})
+					emit(Case{Fn: "SplitAtIndex", S: h, A: x})
+				}
+			}
 			emit(Case{Fn: "Case", S: h})
 			for _, tk := range toks {
 				th := hx(tk)
@@ -274,6 +286,12 @@ func TestProp(t *testing.T) {
 			emit(Case{Fn: "Unwrap", S: h, Tok: ""})
 		}
 		r.Exhaustive(fmt.Sprintf("all strings of <=%d symbols over {a,B,é,',*,space} x offsets/lengths/indices/sizes in len±3 x 7 tokens (Substr, SplitAtIndex, Pad*, Wrap/Unwrap, WrapAllRune, case mapping)", L), int64(len(ss)))
+		// very wide fields (tens of KiB) with tokens of 1..7 bytes: the pattern must not drift
+		for _, tk := range []string{"*", "ab", "_-|", "<=+=>", "abcdef", "1234567", "é.", "世界!"} {
+			for _, size := range []int{4095, 8193, 20001, 30000, 70001} {
+				emit(Case{Fn: "Pad", S: hx("abc"), Tok: hx(tk), A: size})
+			}
+		}
 		// Unwrap on strings over the token characters only (many near-wrapped shapes)
 		us := allStrings([]string{"'", "a", "*"}, r.Pick(6, 7))
 		for _, s := range us {
